@@ -20,6 +20,15 @@ add("C25", "exploration",
     "Reference = i128 model written from the doc comments; database differential reaches only small current versions (reachable by appending).",
     "property-based testing with model + differential (real database) + round-trip oracles", "§4 C25")
 
+add("C17", "fault_enumeration",
+    "Generated records (header sizes 0/1/8/16/32, sizes across every buffer and compression threshold, three content classes, compression per record) are round-tripped through every read path; then for one target record per case every single bit (records <= 4 KiB; head + sampled + buffer-edge bits otherwise), 2-32 bit bursts at every head position and sampled body positions, and every truncation length are applied and every read path must reject or return the original bytes; Writer::open must resume at the damaged record.",
+    "Faults are enumerated per generated record, not for all records; large records are sampled in the body. CRC collision probability (2^-32) is accepted as a source of a (never yet seen) spurious report.",
+    "property-based generation of records + exhaustive fault enumeration (bit flips, bursts, truncations) with a round-trip oracle", "§4 C17")
+add("C18", "exploration",
+    "Stateful model-based testing of one shared segment: generated histories of append / flush_writer / sync / set_len / replace_header interleaved with random and sequential reads and iteration through 1-4 long-lived readers (and clones) that share the writer's FlushedOffset, compared after every read with a model of the flushed prefix.",
+    "Single-threaded interleavings (the harness owns the schedule between operations); true data races inside one operation are out of reach.",
+    "stateful property-based testing against a reference model (flushed-prefix log)", "§4 C18")
+
 NOT_BUILT = {}
 ALL = ["C%02d" % i for i in range(1, 27)]
 for i in ALL:
